@@ -56,6 +56,22 @@ def _cylinder_denormal_hang():
     return bad, {"reproduce": code, "outcome": (r.stdout + r.stderr)[-300:]}
 
 
+def _cylseg_el3_valueerror():
+    """CylinderSegment (0.5, 1, 1, 0, 90): one observer on r = r2, 6.3e-5 rad beside the phi1 face, 1e-6 below the top"""
+    import magpylib as magpy
+    s = magpy.magnet.CylinderSegment(polarization=(.1, .2, .3), dimension=(.5, 1, 1, 0, 90))
+    code = "magpylib.magnet.CylinderSegment(polarization=(.1,.2,.3), dimension=(.5,1,1,0,90)).getH((0.9999999980155, -6.29999999583255e-05, 0.499999))"
+    try:
+        with np.errstate(all="ignore"):
+            import warnings
+            with warnings.catch_warnings():
+                warnings.simplefilter("ignore")
+                h = s.getH((0.9999999980155, -6.29999999583255e-05, 0.499999))
+    except ValueError as e:
+        return True, {"reproduce": code, "outcome": f"ValueError: {e}"}
+    return (not bool(np.all(np.isfinite(h)))), {"reproduce": code, "outcome": repr(h)}
+
+
 def _near_vertex(cls, field):
     """unit right triangle / unit tetrahedron, observer 2.5e-9 beside the vertex (1,0,0), perpendicular to the edge from the origin"""
     def run():
@@ -197,6 +213,7 @@ REPLAYS = {
         **{f"non-finite:Sphere:zero-size:{f}": _nonfinite(_sphere0, [[5e-324, 0.0, 0.0], [1e-160, 1e-160, 1e-160]], f) for f in "BH"},
         **{f"non-finite:Cuboid:near-edge:{f}": _cuboid_near_edge(f) for f in "BH"},
         "hang-or-crash:Cylinder:denormal-height": _cylinder_denormal_hang,
+        "hang-or-crash:CylinderSegment:el3-nan-to-int": _cylseg_el3_valueerror,
         **{f"non-finite:{cls}:near-vertex:{f}": _near_vertex(cls, f) for cls in ("Triangle", "Tetrahedron", "TriangularMesh") for f in "BH"},
     },
     "C16": {"status:stella-octangula:selfintersection-not-detected": _c16_selfintersecting("stella-octangula"),
